@@ -886,6 +886,11 @@ func r10PartialTruncate(c *RuleCtx) {
 			if _, pinned := pinnedFields[nt.Obj().Name()]; pinned {
 				continue // the pooled / reused types of the pinned tree have their own tables (R10, R12)
 			}
+			if !keptInContainer(c.p, nt) {
+				// a working object of which there is one (a merger, a writer): its methods reset the part of
+				// its state that belongs to their step — not a recycled accumulator
+				continue
+			}
 			var sliceFields []int
 			for i := 0; i < st.NumFields(); i++ {
 				if _, isSlice := st.Field(i).Type().Underlying().(*types.Slice); isSlice {
@@ -1724,4 +1729,56 @@ func keyedMemo(v *ssa.Phi, loop *natLoop) bool {
 		}
 	}
 	return false
+}
+
+// keptInContainer: values of type nt (or pointers to them) are elements of some map or slice of the package
+// — a field, a variable, a made table: there are many of them and they are recycled where they sit.
+func keptInContainer(p *Program, nt *types.Named) bool {
+	isElem := func(t types.Type) bool {
+		var e types.Type
+		switch u := t.Underlying().(type) {
+		case *types.Map:
+			e = u.Elem()
+		case *types.Slice:
+			e = u.Elem()
+		case *types.Array:
+			e = u.Elem()
+		default:
+			return false
+		}
+		if pt, ok := e.Underlying().(*types.Pointer); ok {
+			e = pt.Elem()
+		}
+		return types.Identical(e, nt)
+	}
+	sc := p.ZapTypes.Scope()
+	for _, name := range sc.Names() {
+		tn, ok := sc.Lookup(name).(*types.TypeName)
+		if !ok {
+			continue
+		}
+		if st, ok := tn.Type().Underlying().(*types.Struct); ok {
+			for i := 0; i < st.NumFields(); i++ {
+				if isElem(st.Field(i).Type()) {
+					return true
+				}
+			}
+		}
+	}
+	found := false
+	for _, fn := range p.ZapFuncs {
+		eachInstr(fn, func(_ *ssa.BasicBlock, in ssa.Instruction) {
+			switch x := in.(type) {
+			case *ssa.MakeMap:
+				if isElem(x.Type()) {
+					found = true
+				}
+			case *ssa.MakeSlice:
+				if isElem(x.Type()) {
+					found = true
+				}
+			}
+		})
+	}
+	return found
 }
